@@ -170,3 +170,20 @@ CLAIMED["C15"]["text"] += " Headers carrying CDELT beside a CD matrix."
 CLAIMED["C16"]["text"] += " Slant-orthographic SIN headers (PV2_1, PV2_2 incl. the NCP form) against the forward formula of FITS Paper II eq. 43/44; TAN-SIP headers through the inverse clause at 1e-3 px (astropy inverts the distortion iteratively to 1e-4 px)."
 CLAIMED["C17"]["text"] += " Every spelling (sign, explicit plus, colon / blank / tab separators, optional seconds field) of every whole-arcminute angle of six degrees parses to the exact value."
 CLAIMED["C19"]["text"] += " AeReg --eps together with --ratio 1.5 / 3: the grouping still follows --eps."
+# ---- refinements after wave 11 ----
+CLAIMED["C01"]["text"] += " H: images whose reference point is a celestial pole (SIN/ZEA/TAN, both poles); I: exactly circular beams x 5 projections x BPA 0/45/90."
+CLAIMED["C02"]["text"] += " Double-precision values 3e-8 (relative) either side of the thresholds."
+CLAIMED["C03"]["text"] += " Pole-centred scenes; priorized stages 1-2 on exactly circular input components whose meridian runs along a pixel axis (SIN central meridian, CAR)."
+CLAIMED["C04"]["text"] += " Amplitudes 1e-9 .. 3e5 (badly scaled Fisher matrices are inverted after normalising the diagonal; only matrices ill-conditioned after that are left undecided)."
+CLAIMED["C05"]["text"] += " One row without psf columns in a catalogue made at another resolution, under all permutations."
+CLAIMED["C07"]["text"] += " Blank bands of rows covering whole stripes, with and without masking: finite/blank pattern and values independent of the stripe count."
+CLAIMED["C08"]["technique"] = CLAIMED["C08"]["technique"].replace("35-operation alphabet", "37-operation alphabet")
+CLAIMED["C08"]["text"] = CLAIMED["C08"]["text"].replace("35-operation alphabet", "37-operation alphabet") + " Pixels at the coarsest level (1) are added to two registers."
+CLAIMED["C09"]["text"] += " Positions exactly at a pole (scalar/vector, radians/degrees, any RA) against regions that cover / do not cover the pole."
+CLAIMED["C10"]["text"] += " Table rows exactly at a pole with a polar-cap region; images whose reference pixel is a pole and lies in the region."
+CLAIMED["C11"]["text"] += " A one-cell region (depth 12, 14) under an interior, edge or corner pixel of a 3x3 / 7x7 island."
+CLAIMED["C13"]["text"] += " A bright source with one opposite-sign pixel next to its peak (12 variants)."
+CLAIMED["C14"]["text"] += " Mask mode frac = 0."
+CLAIMED["C16"]["text"] += " Axis ratio 0.997 (nearly circular)."
+CLAIMED["C17"]["text"] += " Translations that start AT a pole and translations whose destination IS a pole; the reference destination is computed in vector form."
+CLAIMED["C19"]["text"] += " Elliptical variant: every group chain-connected under the distance it was built with (independent separations for sky_dist), also with one zero-size source."
